@@ -105,6 +105,8 @@ type HSFields struct {
 	InnerOverride func(honest []byte) []byte
 	// ReplyOverride, if non-nil, replaces the whole plaintext reply body of this stage
 	ReplyOverride []byte
+	// RawBefore: transport payloads written (each as one frame) just before the reply of this stage
+	RawBefore [][]byte
 }
 
 type Server struct {
@@ -122,6 +124,9 @@ type Server struct {
 	ChooseA           func() *big.Int
 	G                 int32
 	InitialSalt       func(derived int64) int64 // nil: the derived salt
+	// ClockOffset (seconds, atomic) is added to the server's clock where message ids are made: a server whose
+	// clock reads 2038 or later produces ids with the top bit set.
+	ClockOffset int64
 
 	mu      sync.Mutex
 	conns   []*Conn
@@ -326,7 +331,7 @@ var globalMsgCounter int64
 // NextMsgID returns an increasing server msg_id with the given low bits (1: response, 3: notification).
 func (s *Server) NextMsgID(low int64) int64 {
 	n := atomic.AddInt64(&globalMsgCounter, 1)
-	return (time.Now().Unix() << 32) | ((n << 2) & 0xfffffffc) | low
+	return ((time.Now().Unix() + atomic.LoadInt64(&s.ClockOffset)) << 32) | ((n << 2) & 0xfffffffc) | low
 }
 
 // NextSeq returns the server seq_no for a content-related (odd) or service (even) message.
@@ -479,6 +484,12 @@ func (r *rd) bytes() []byte {
 func (c *Conn) sendPlainOr(f *HSFields, body []byte) {
 	if f != nil && f.ReplyOverride != nil {
 		body = f.ReplyOverride
+	}
+	if f != nil {
+		for _, raw := range f.RawBefore {
+			c.S.emit("srv.rawsend", map[string]interface{}{"conn": c.ID, "len": len(raw)})
+			c.SendRaw(raw)
+		}
 	}
 	c.sendPlain(body)
 }
